@@ -431,6 +431,17 @@ theorem copyFrom_inv (c : Ctx) (s : CallSt) (prev : Option Vtx) (v : Vtx) (h : I
     exact ValOK.step (h.store _ _ ha) hv (he _ rfl)
   · exact h
 
+theorem valCopy_inv (c : Ctx) (s : CallSt) (prev : Option Vtx) (v : Vtx) (h : Inv c s)
+    (hv : v.isData = true) (he : ∀ u, prev = some u → c.g.hasEdge v u = true) :
+    Inv c (valCopy c s prev v) := by
+  rcases valCopy_cases c s prev v with h1 | ⟨n, t, st, x, hp, _, hg, h1⟩
+  · rw [h1]; exact copyFrom_inv c s prev v h hv he
+  · rw [h1]
+    apply h.set
+    intro a ha
+    cases ha
+    exact ValOK.step (h.store _ _ hg) hv (he _ hp)
+
 theorem copyFrom_get_out (s : CallSt) (t : Nat) (st : String) (v : Vtx) :
     (copyFrom s (some (.out t st)) v).get v = s.get (.out t st) := by
   show (s.set v (s.get (.out t st))).get v = _
@@ -473,11 +484,11 @@ theorem walkStep_inv (c : Ctx) (hg : EdgeOK c.env c.g) (hf : FuncsOK c)
       | some u => have := kind u hp; cases u <;> simp [kindOK] at this
     | value n t u =>
       rw [walkStep_value c rec herr]
-      have hi1 : Inv c (copyFrom w.s w.prev (.value n t u)) := copyFrom_inv c _ _ _ hw.1 rfl hedge
+      have hi1 : Inv c (valCopy c w.s w.prev (.value n t u)) := valCopy_inv c _ _ _ hw.1 rfl hedge
       refine ⟨hi1.congr rfl rfl, fun _ => ⟨?_, ?_⟩⟩
       · intro f hfin
         dsimp only at hfin
-        cases hget : (copyFrom w.s w.prev (.value n t u)).get (.value n t u) with
+        cases hget : (valCopy c w.s w.prev (.value n t u)).get (.value n t u) with
         | some x =>
           rw [hget] at hfin
           simp only [Option.some_or, Option.some.injEq] at hfin
@@ -497,13 +508,13 @@ theorem walkStep_inv (c : Ctx) (hg : EdgeOK c.env c.g) (hf : FuncsOK c)
             | value n' t' u' => exact (hP.1 f hfin).step rfl he
             | arg t' u' => simp [kindOK] at hk
             | out t' u' =>
-              rw [copyFrom_get_out] at hget
+              rw [valCopy_out, copyFrom_get_out] at hget
               rcases hP.1 with h | h
               · rw [hget] at h; cases h
               · rw [h] at hfin; cases hfin
             | func k =>
               have := hP _ (mem_ins_of_hasEdge _ _ _ he)
-              rw [show copyFrom w.s (some (Vtx.func k)) (Vtx.value n t u) = w.s from rfl] at hget
+              rw [show valCopy c w.s (some (Vtx.func k)) (Vtx.value n t u) = w.s from rfl] at hget
               rw [hget] at this; cases this
       · intro l hl
         dsimp only at hl
